@@ -178,7 +178,10 @@ func checkC08(p *Prog, r *Report) {
 			closedCh := p.precededBy(f, n.Pos(), func(c *ast.CallExpr) bool {
 				return p.CalleeName(c) == "builtin.close" && len(c.Args) == 1 && p.IsField(c.Args[0], "tcpPacketConn.closedChan")
 			})
-			conns := p.precededBy(f, n.Pos(), func(c *ast.CallExpr) bool { return p.CalleeName(c) == "ice.tcpPacketConn.closeAndLogError" })
+			conns := p.precededBy(f, n.Pos(), func(c *ast.CallExpr) bool {
+				x, ok := p.isCloseOf(c)
+				return ok && p.TypeOf(x) != nil && typeStr(p.TypeOf(x)) == "net.Conn"
+			})
 			// and the mutex is released before waiting
 			unlocked := !p.Locks(f).At(n)["tcpPacketConn.mu"]
 			return closedCh && conns && unlocked
@@ -228,7 +231,9 @@ func checkC08(p *Prog, r *Report) {
 
 	// ---- R8.3 close sequence ------------------------------------------------------------------
 	r.Rule("R8.3", "Agent.close marks the loop closed, then aborts the I/O of started candidates (as the loop's pre-stop action), then waits for the loop; the abort closes closeCh, expires deadlines, aborts a blocked shared write and closes the conn exactly once; the loop's close callback cancels and awaits gathering, drops mux entries, deletes candidates, releases starters and the reader buffer, closes mDNS and reports Closed.", 4)
-	if f := p.Fn("Agent.close"); r.Anchor("Agent.close", f != nil) {
+	closers := p.agentClosers()
+	r.Anchor("Agent.close", len(closers) > 0)
+	for _, f := range closers {
 		ok := false
 		for _, c := range p.CallsTo(f, false, "taskloop.Loop.CloseWithPreStop") {
 			if len(c.Args) == 1 {
@@ -238,7 +243,11 @@ func checkC08(p *Prog, r *Report) {
 			}
 		}
 		direct := len(p.CallsTo(f, false, "ice.Agent.abortStartedCandidateIO")) > 0
-		r.Check(ok && !direct, "Agent.close: abort as pre-stop of the loop close", p.Pos(f.Body.Pos()), "loop.CloseWithPreStop(a.abortStartedCandidateIO)", "the I/O abort is not run as the loop's pre-stop action (after the loop is marked closed, before waiting): tasks admitted during the abort can start candidates that are never aborted, and Close hangs on their blocked socket I/O")
+		what := "Agent.close: abort as pre-stop of the loop close"
+		if f.Name != "Agent.close" {
+			what = f.Name + ": abort as pre-stop of the loop close"
+		}
+		r.Check(ok && !direct, what, p.Pos(f.Body.Pos()), "loop.CloseWithPreStop(a.abortStartedCandidateIO)", "the I/O abort is not run as the loop's pre-stop action (after the loop is marked closed, before waiting): tasks admitted during the abort can start candidates that are never aborted, and Close hangs on their blocked socket I/O")
 	}
 	if f := p.Fn("candidateBase.abortIO"); r.Anchor("candidateBase.abortIO", f != nil) {
 		var seq []string
@@ -735,17 +744,45 @@ func checkNotifierGracefulWait(p *Prog, r *Report) {
 	})
 	r.Check(!escapes, "notifier Close: graceful close always waits", p.Pos(f.Body.Pos()), "every graceful path passes notifiers.Wait()",
 		"a graceful close can return without waiting for the handler goroutines ("+g.describePath(p, path)+"): after an earlier plain Close, GracefulClose returns while a handler is still running and before Closed was delivered")
-	if cl := p.Fn("Agent.close"); cl != nil {
+	// every function that closes the agent's loop closes the three notifiers with its caller's graceful
+	// flag, or (the flag spelled out per entry point) gracefully exactly in GracefulClose
+	for _, cl := range p.agentClosers() {
 		n := 0
 		for _, c := range p.CallsTo(cl, false, "ice.handlerNotifier.Close") {
-			if len(c.Args) == 1 {
-				if id, ok := unparen(c.Args[0]).(*ast.Ident); ok && p.ObjOf(id) == p.paramObj(cl, 0) {
-					n++
-				}
+			if len(c.Args) != 1 {
+				continue
+			}
+			if id, ok := unparen(c.Args[0]).(*ast.Ident); ok && len(cl.Type.Params.List) > 0 && p.ObjOf(id) == p.paramObj(cl, 0) {
+				n++
+			} else if v, isConst := p.ConstVal(c.Args[0]); isConst && cl.Name != "Agent.close" && (v == "true") == (cl.Name == "Agent.GracefulClose") {
+				n++
 			}
 		}
-		r.Check(n == 3, "Agent.close passes graceful to the three notifiers", p.Pos(cl.Body.Pos()), "3 calls", itoa(n)+" of the three notifiers are closed with the caller's graceful flag")
+		what := "Agent.close passes graceful to the three notifiers"
+		if cl.Name != "Agent.close" {
+			what = cl.Name + " closes the three notifiers in its own mode"
+		}
+		r.Check(n == 3, what, p.Pos(cl.Body.Pos()), "3 calls", itoa(n)+" of the three notifiers are closed with the caller's graceful flag")
 	}
+}
+
+// agentClosers: the functions that close the agent's task loop (Agent.close; or, when it is
+// spelled out per entry point, Close and GracefulClose).
+func (p *Prog) agentClosers() []*Func {
+	var out []*Func
+	for _, f := range p.AllFuncs {
+		if f.Pkg != p.Ice || f.Body == nil {
+			continue
+		}
+		for _, c := range p.CallsTo(f, false, "taskloop.Loop.CloseWithPreStop", "taskloop.Loop.Close") {
+			if sel, ok := unparen(c.Fun).(*ast.SelectorExpr); ok && p.IsField(sel.X, "Agent.loop") {
+				out = append(out, f)
+				break
+			}
+		}
+	}
+	sort.Slice(out, func(i, j int) bool { return out[i].Name < out[j].Name })
+	return out
 }
 
 func isErrorType(t types.Type) bool {
